@@ -40,7 +40,11 @@ def main(argv):
             recorded.append(cl)
             return super().register_structure_hook(cl, func) if func is not None else super().register_structure_hook(cl)
 
-    converters.get_converter(Rec())
+    rec_conv = converters.get_converter(Rec())
+    try:  # registrations a tree defers to first use
+        rec_conv.unstructure(rec_conv.structure({"line": 1, "character": 2}, lsp.Position))
+    except Exception:
+        pass
     ref = converters.get_converter()
     ns = {"typing": t, "lsprotocol": lsprotocol, "NoneType": type(None), "builtins": __import__("builtins")}
 
@@ -130,8 +134,26 @@ def main(argv):
         seen.add(key)
         out.append([f"hm:{len(out)}:{tag}"[:70], "expr:" + expr, js])
 
+    # the types hooked on the pinned tree stay in the matrix even if the tree under test no longer
+    # registers (or no longer registers eagerly) a hook for them: the observation set must not shrink
+    # with the code it observes
+    baseline: list = []
+    try:
+        import os
+
+        with open(os.path.join(os.path.dirname(os.path.abspath(__file__)), "hooked_types_baseline.json")) as f:
+            for e_ in json.load(f):
+                try:
+                    baseline.append(eval(e_, dict(ns)))
+                except Exception:
+                    pass
+    except (OSError, ValueError):
+        pass
+    if len(argv) > 2 and argv[2] == "--dump-types":
+        print(json.dumps(sorted({e for e in (expr_of(c) for c in recorded) if e})))
+        return
     types_done = set()
-    for cl in recorded:
+    for cl in baseline + recorded:
         e = expr_of(cl)
         if e is None or e in types_done:
             continue
